@@ -1,7 +1,469 @@
+import LoraVerif.Model.PhySpi
+import LoraVerif.Spec.SemtechSpi
 import Driver.Util
-/-! Suite C13: line-protocol handlers (stub — replaced when the property's model is built). -/
+/-! Suite C13: model = `Model.Phy.Sx126x` / `Sx127x` (transliteration of lora-phy), spec =
+`Spec.Semtech` (transcription of SWL2001).  Op lines: see `harness/src/c13.rs`. -/
+open Model.Phy
 namespace Driver.C13
 
-def handle (_ws : List String) : String := "bad-op"
+def regInit (seed a : Nat) : UInt8 :=
+  UInt8.ofNat ((((a * 2654435761 + seed * 40503) % 4294967296) / 8192) % 256)
+
+def hexNat? (s : String) : Option Nat :=
+  s.toList.foldl (fun acc c => match acc, hexDigit? c with
+    | some a, some d => some (a * 16 + d)
+    | _, _ => none) (some 0)
+
+def parsePokes (s : String) : Option (List (Nat × UInt8)) :=
+  if s = "-" then some [] else
+  (s.splitOn ",").foldr (fun p acc =>
+    match acc, p.splitOn "=" with
+    | some l, [a, v] =>
+      match hexNat? a, hexNat? v with
+      | some a, some v => some ((a, UInt8.ofNat v) :: l)
+      | _, _ => none
+    | _, _ => none) (some [])
+
+inductive Variant where
+  | sx1261 | sx1262 | wlhp | wllp | sx1276 | sx1272
+  deriving DecidableEq
+
+structure ChipCfg where
+  variant : Variant
+  dcdc : Bool := false
+  boost : Bool := false
+  tcxo : Option Nat := none
+  tcxoUsed : Bool := false
+  txBoost : Bool := false
+
+def parseFlags : List Char → ChipCfg → Option ChipCfg
+  | [], c => some c
+  | 'd' :: r, c => parseFlags r { c with dcdc := true }
+  | 'b' :: r, c => parseFlags r { c with boost := true }
+  | 'c' :: r, c => parseFlags r { c with tcxoUsed := true }
+  | 'x' :: r, c => parseFlags r { c with txBoost := true }
+  | 't' :: k :: r, c =>
+    if '0' ≤ k ∧ k ≤ '7' then parseFlags r { c with tcxo := some (k.toNat - '0'.toNat) } else none
+  | _, _ => none
+
+def parseChip (tok : String) : Option ChipCfg :=
+  let (v, flags) := match tok.splitOn "/" with
+    | [v] => (v, "")
+    | [v, f] => (v, f)
+    | _ => ("", "")
+  let variant : Option Variant := match v with
+    | "1261" => some .sx1261 | "1262" => some .sx1262 | "wlhp" => some .wlhp | "wllp" => some .wllp
+    | "1276" => some .sx1276 | "1272" => some .sx1272 | _ => none
+  variant.bind (fun v => parseFlags flags.toList { variant := v })
+
+def is126 : Variant → Bool
+  | .sx1276 | .sx1272 => false
+  | _ => true
+
+def mkChip (cfg : ChipCfg) (seed : Nat) (pokes : List (Nat × UInt8)) : Chip :=
+  let base : Nat → UInt8 := fun a => regInit seed a
+  let regs := pokes.foldl (fun f (a, v) => setAt f a v) base
+  { kind := if is126 cfg.variant then .sx126x else .sx127x,
+    regs := regs,
+    buffer := fun a => regInit (seed ^^^ 0x5555) (0x10000 + a) }
+
+/-! ### rendering -/
+
+def showErr : RadioError → String
+  | .SPI => "SPI" | .Reset => "Reset" | .RfSwitchRx => "RfSwitchRx" | .RfSwitchTx => "RfSwitchTx"
+  | .Busy => "Busy" | .Irq => "Irq" | .DIO1 => "DIO1" | .InvalidConfiguration => "InvalidConfiguration"
+  | .InvalidRadioMode => "InvalidRadioMode" | .InvalidSyncWord => "InvalidSyncWord"
+  | .OpError s => s!"OpError({s.toNat})"
+  | .InvalidBaseAddress a b => s!"InvalidBaseAddress({a},{b})"
+  | .PayloadSizeUnexpected n => s!"PayloadSizeUnexpected({n})"
+  | .PayloadSizeMismatch a b => s!"PayloadSizeMismatch({a},{b})"
+  | .UnavailableSpreadingFactor => "UnavailableSpreadingFactor"
+  | .UnavailableBandwidth => "UnavailableBandwidth"
+  | .InvalidBandwidthForFrequency => "InvalidBandwidthForFrequency"
+  | .InvalidSF6ExplicitHeaderRequest => "InvalidSF6ExplicitHeaderRequest"
+  | .InvalidOutputPowerForFrequency => "InvalidOutputPowerForFrequency"
+  | .TransmitTimeout => "TransmitTimeout" | .ReceiveTimeout => "ReceiveTimeout"
+  | .DutyCycleUnsupported => "DutyCycleUnsupported" | .RngUnsupported => "RngUnsupported"
+
+def showEv (e : Ev) : String :=
+  let base := match e.req with
+    | .spi w r => "s" ++ hexOfBytes w ++ (if r > 0 then s!"/{r}" else "")
+    | .busy => "B" | .irq => "I" | .rfRx => "Rx" | .rfTx => "Tx" | .rfOff => "Off" | .reset => "Rst"
+    | .delay ms => s!"D{ms}"
+  match e.mark with
+  | .done => base
+  | .failed => base ++ "!"
+  | .pending => base ++ "~"
+
+def showLog (log : List Ev) : String :=
+  if log.isEmpty then "-" else String.intercalate "," (log.map showEv)
+
+def showMosi (t : List Bytes) : String :=
+  if t.isEmpty then "-" else String.intercalate "," (t.map hexOfBytes)
+
+def showOut {α : Type} (f : α → String) : Out α → String
+  | .ok a => f a
+  | .err e => "err:" ++ showErr e
+  | .panic _ => "PANIC"
+  | .dropped => "DROPPED"
+
+/-! ### parsing of operation arguments -/
+
+def rxModeOf? (s : String) : Option RxMode :=
+  if s = "rxc" then some .continuous
+  else if s.startsWith "rxs" then (s.drop 3).toString.toNat?.map .single
+  else if s.startsWith "rxd" then
+    match (s.drop 3).toString.splitOn ":" with
+    | [a, b] => match a.toNat?, b.toNat? with
+      | some a, some b => some (.dutyCycle a b)
+      | _, _ => none
+    | _ => none
+  else none
+
+def modeOf? (s : String) : Option RadioMode :=
+  match s with
+  | "sleep" => some .sleep | "standby" => some .standby | "fs" => some .frequencySynthesis
+  | "tx" => some .transmit | "listen" => some .listen | "cad" => some .cad
+  | _ => (rxModeOf? s).map .receive
+
+namespace S126
+open Gen.PhyCodes126 Model.Phy.Sx126x
+
+def sfOf? (n : Nat) : Option SpreadingFactor :=
+  if n = 5 then some ._5 else if n = 6 then some ._6 else if n = 7 then some ._7 else if n = 8 then some ._8
+  else if n = 9 then some ._9 else if n = 10 then some ._10 else if n = 11 then some ._11
+  else if n = 12 then some ._12 else none
+def bwOf? (hz : Nat) : Option Bandwidth := Bandwidth.all.find? (fun b => b.hz == (hz : Int))
+def crOf? (d : Nat) : Option CodingRate :=
+  if d = 5 then some ._4_5 else if d = 6 then some ._4_6 else if d = 7 then some ._4_7 else if d = 8 then some ._4_8 else none
+def tcxoOf? (k : Nat) : Option TcxoCtrlVoltage := TcxoCtrlVoltage.all.find? (fun t => t.value == (k : Int))
+
+def config (c : ChipCfg) : Option Config :=
+  let chip : Sx126x.Variant := match c.variant with
+    | .sx1261 => .sx1261 | .sx1262 => .sx1262 | .wlhp => .stm32wl true | _ => .stm32wl false
+  match c.tcxo with
+  | none => some { chip := chip, tcxo := none, useDcdc := c.dcdc, rxBoost := c.boost }
+  | some k => (tcxoOf? k).map (fun t => { chip := chip, tcxo := some t, useDcdc := c.dcdc, rxBoost := c.boost })
+
+/-- a model operation with its result rendered, the chip being prepared first when the op asks for it -/
+structure Run where
+  prep : Chip → Chip := id
+  prog : Prog String
+
+def unitP (p : Prog Unit) : Prog String := do p; pure "ok"
+
+def irqS (v : Option IrqState × Option Bool) : String :=
+  let a := match v.1 with | none => "None" | some .done => "Done" | some .preambleReceived => "PreambleReceived"
+  let b := match v.2 with | none => "-" | some false => "0" | some true => "1"
+  s!"ok:{a},{b}"
+
+def model (cfg : Config) (ws : List String) : Option Run :=
+  match ws with
+  | ["sleep", warm] => (parseBool? warm).map (fun w => ⟨id, unitP (setSleep w)⟩)
+  | ["standby"] => some ⟨id, unitP setStandby⟩
+  | ["channel", hz] => hz.toNat?.map (fun f => ⟨id, unitP (setChannel f)⟩)
+  | ["modparams", sf, bw, cr, ldro, hz] => do
+    let sf ← sf.toNat? >>= sfOf?
+    let bw ← bw.toNat? >>= bwOf?
+    let cr ← cr.toNat? >>= crOf?
+    let ldro ← ldro.toNat?
+    let hz ← hz.toNat?
+    if ldro < 256 then some ⟨id, unitP (setModulationParams { sf := sf, bw := bw, cr := cr, ldro := UInt8.ofNat ldro, freq := hz })⟩ else none
+  | ["pktparams", pre, implicit, len, crc, iq] => do
+    let pre ← pre.toNat?
+    let implicit ← parseBool? implicit
+    let len ← len.toNat?
+    let crc ← parseBool? crc
+    let iq ← parseBool? iq
+    if pre < 65536 ∧ len < 256 then
+      some ⟨id, unitP (setPacketParams { preambleLength := pre, implicitHeader := implicit, payloadLength := len, crcOn := crc, iqInverted := iq })⟩
+    else none
+  | ["syncword", w] => w.toNat?.bind (fun w => if w < 65536 then some ⟨id, unitP (setLoraSyncWord w)⟩ else none)
+  | ["bufbase", tx, rx] => do
+    let tx ← tx.toNat?
+    let rx ← rx.toNat?
+    some ⟨id, unitP (setTxRxBufferBaseAddress tx rx)⟩
+  | ["payload", h] => (bytesOfHex? h).map (fun p => ⟨id, unitP (setPayload p)⟩)
+  | ["txpower", dbm, hz, prep] => do
+    let dbm ← parseInt? dbm
+    let prep ← parseBool? prep
+    let f : Option Nat ← (if hz = "-" then some none else hz.toNat?.map some)
+    some ⟨id, unitP (setTxPowerAndRampTime cfg dbm f prep)⟩
+  | ["irqparams", mode] =>
+    if mode = "none" then some ⟨id, unitP (setIrqParams none)⟩
+    else (modeOf? mode).map (fun m => ⟨id, unitP (setIrqParams (some m))⟩)
+  | ["dotx"] => some ⟨id, unitP doTx⟩
+  | ["dorx", mode] => (rxModeOf? mode).map (fun m => ⟨id, unitP (doRx cfg m)⟩)
+  | ["docad", sf] => do
+    let sf ← sf.toNat? >>= sfOf?
+    some ⟨id, unitP (doCad cfg { sf := sf, bw := ._125KHz, cr := ._4_5, ldro := 0, freq := 868100000 })⟩
+  | ["calimg", hz] => hz.toNat?.map (fun f => ⟨id, unitP (calibrateImage f)⟩)
+  | ["wake", mode] => (modeOf? mode).map (fun m => ⟨id, unitP (ensureReady m)⟩)
+  | ["clearirq"] => some ⟨id, unitP clearIrqStatus⟩
+  | ["txcw"] => some ⟨id, unitP setTxContinuousWaveMode⟩
+  | ["initlora", w] => w.toNat?.bind (fun w => if w < 65536 then some ⟨id, unitP (initLora cfg w)⟩ else none)
+  | ["irqevent", mode, flags, clear, cad] => do
+    let m ← modeOf? mode
+    let flags ← flags.toNat?
+    let clear ← parseBool? clear
+    let cad ← parseBool? cad
+    some ⟨fun c => { c with irqDefault := flags },
+          do let v ← processIrqEvent m (if cad then some false else none) clear; pure (irqS v)⟩
+  | ["pktstatus", a, b, c] => do
+    let a ← a.toNat?
+    let b ← b.toNat?
+    let c ← c.toNat?
+    some ⟨fun ch => { ch with pktStatus := fun i => UInt8.ofNat (if i = 0 then a else if i = 1 then b else c) },
+          do let _ ← getRxPacketStatus; pure "ok"⟩
+  | ["rssi", a] => a.toNat?.map (fun a => ⟨fun ch => { ch with rssiInst := UInt8.ofNat a }, do let _ ← getRssi; pure "ok"⟩)
+  | _ => none
+
+open Spec.Semtech.S126 in
+/-- the reference calls realising the operation; `none` = the reference has no counterpart -/
+def spec (c : ChipCfg) (cfg : Config) (ws : List String) : Option (Prog Unit) :=
+  match ws with
+  | ["sleep", warm] => (parseBool? warm).map Ref.sleep
+  | ["standby"] => some Ref.standby
+  | ["channel", hz] => hz.toNat?.map Ref.rfFrequency
+  | ["modparams", sf, bw, cr, ldro, _] => do
+    let sf ← sf.toNat?
+    let bw ← bw.toNat?
+    let cr ← cr.toNat?
+    let ldro ← ldro.toNat?
+    Ref.modulation sf bw cr (UInt8.ofNat ldro)
+  | ["pktparams", pre, implicit, len, crc, iq] => do
+    let pre ← pre.toNat?
+    let implicit ← parseBool? implicit
+    let len ← len.toNat?
+    let crc ← parseBool? crc
+    let iq ← parseBool? iq
+    some (Ref.packet pre implicit len crc iq)
+  | ["syncword", w] => w.toNat?.map (fun w => Ref.syncWord (UInt8.ofNat (((w / 256) &&& 0xF0) ||| ((w / 16) &&& 0x0F))))
+  | ["bufbase", tx, rx] => do
+    let tx ← tx.toNat?
+    let rx ← rx.toNat?
+    if tx < 256 ∧ rx < 256 then some (Ref.bufferBase (UInt8.ofNat tx) (UInt8.ofNat rx)) else none
+  | ["payload", h] => (bytesOfHex? h).map Ref.fifoWrite
+  | ["txpower", dbm, hz, prep] => do
+    let dbm ← parseInt? dbm
+    let prep ← parseBool? prep
+    let f : Option Nat ← (if hz = "-" then some none else hz.toNat?.map some)
+    -- the SX1261 refuses >= 15 dBm below 400 MHz without touching the bus
+    let refused := !cfg.chip.highPower && decide (dbm ≥ 15) && (match f with | some f => decide (f < 400000000) | none => false)
+    if refused then none else
+    -- the PA row comes from the variant's table (C17 decides its values); here: its framing
+    let (e, txp) ← cfg.chip.paTable.lookup dbm
+    some (Ref.txPower cfg.chip.highPower e.duty e.hpMax txp prep)
+  | ["irqparams", mode] =>
+    -- mask policy: TX = TxDone|Timeout, CAD = CadDone|CadDetected, RX and standby = all sixteen bits, else none
+    let m : Nat := if mode = "standby" then 0xFFFF else if mode = "tx" then 0x0201 else if mode = "cad" then 0x0180
+      else if mode.startsWith "rx" then 0xFFFF else 0
+    some (Ref.irqMasks m m)
+  | ["dotx"] => some Ref.startTx
+  | ["dorx", mode] => (rxModeOf? mode).map (fun m => Ref.startRx c.boost (match m with
+      | .single n => .single n | .continuous => .continuous | .dutyCycle a b => .dutyCycle a b))
+  | ["docad", sf] => sf.toNat?.map (Ref.startCad c.boost)
+  | ["calimg", hz] => hz.toNat?.map Ref.imageCalibration
+  | ["wake", mode] => (modeOf? mode).map (fun m => match m with
+      | .sleep => Ref.wake
+      | .receive (.dutyCycle _ _) => Ref.wake
+      | _ => pure ())
+  | ["clearirq"] => some Ref.clearIrq
+  | ["txcw"] => some Ref.txContinuousWave
+  | ["initlora", w] =>
+    -- with a TCXO, lora-phy clocks ClearDeviceErrors as 07 00 00 00 (read_with_status with a 2-byte
+    -- buffer) where the reference sends 07 00 00: bring-up is not among the operations C13 lists,
+    -- the difference is reported as an observation and the TCXO variant is compared model-only
+    if c.tcxo.isSome then none else
+    w.toNat?.map (fun w =>
+      Ref.init c.dcdc cfg.chip.dio2AsRfSwitch (c.tcxo.map (fun k => UInt8.ofNat k))
+        (UInt8.ofNat (((w / 256) &&& 0xF0) ||| ((w / 16) &&& 0x0F))))
+  | ["irqevent", mode, flags, clear, _] => do
+    let m ← modeOf? mode
+    let flags ← flags.toNat?
+    let clear ← parseBool? clear
+    let rxDone := (flags / 2) % 2 == 1
+    some (Ref.irqService (if clear then some 0xFFFF else none)
+      (match m with | .receive (.single _) => rxDone | _ => false))
+  | ["retention", a] => (hexNat? a).map (fun a => do let _ ← Spec.Semtech.S126.addRegisterToRetentionList a; pure ())
+  | _ => none
+
+end S126
+
+namespace S127
+open Gen.PhyCodes127 Model.Phy.Sx127x
+
+def sfOf? (n : Nat) : Option SpreadingFactor :=
+  if n = 5 then some ._5 else if n = 6 then some ._6 else if n = 7 then some ._7 else if n = 8 then some ._8
+  else if n = 9 then some ._9 else if n = 10 then some ._10 else if n = 11 then some ._11
+  else if n = 12 then some ._12 else none
+def bwOf? (hz : Nat) : Option Bandwidth := Bandwidth.all.find? (fun b => b.hz == (hz : Int))
+def crOf? (d : Nat) : Option CodingRate :=
+  if d = 5 then some ._4_5 else if d = 6 then some ._4_6 else if d = 7 then some ._4_7 else if d = 8 then some ._4_8 else none
+
+def config (c : ChipCfg) : Config :=
+  { chip := if c.variant = .sx1272 then .sx1272 else .sx1276, tcxoUsed := c.tcxoUsed, txBoost := c.txBoost, rxBoost := c.boost }
+
+def modParams? (sf bw cr ldro hz : String) : Option ModulationParams := do
+  let sf ← sf.toNat? >>= sfOf?
+  let bw ← bw.toNat? >>= bwOf?
+  let cr ← cr.toNat? >>= crOf?
+  let ldro ← ldro.toNat?
+  let hz ← hz.toNat?
+  if ldro < 256 then some { sf := sf, bw := bw, cr := cr, ldro := UInt8.ofNat ldro, freq := hz } else none
+
+def model (cfg : Config) (ws : List String) : Option S126.Run :=
+  let unitP := S126.unitP
+  match ws with
+  | ["sleep", _] => some ⟨id, unitP setSleep⟩
+  | ["standby"] => some ⟨id, unitP setStandby⟩
+  | ["channel", hz] => hz.toNat?.map (fun f => ⟨id, unitP (setChannel f)⟩)
+  | ["modparams", sf, bw, cr, ldro, hz] => (modParams? sf bw cr ldro hz).map (fun m => ⟨id, unitP (setModulationParams cfg {} m)⟩)
+  | ["initmod", w, sf, bw, cr, ldro, hz] => do
+    let w ← w.toNat?
+    let m ← modParams? sf bw cr ldro hz
+    some ⟨id, unitP (do let d ← initLora cfg {} w; setModulationParams cfg d m)⟩
+  | ["pktparams", pre, implicit, len, crc, iq] => do
+    let pre ← pre.toNat?
+    let implicit ← parseBool? implicit
+    let len ← len.toNat?
+    let crc ← parseBool? crc
+    let iq ← parseBool? iq
+    if pre < 65536 ∧ len < 256 then
+      some ⟨id, unitP (setPacketParams cfg { preambleLength := pre, implicitHeader := implicit, payloadLength := len, crcOn := crc, iqInverted := iq })⟩
+    else none
+  | ["syncword", w] => w.toNat?.bind (fun w => if w < 65536 then some ⟨id, unitP (setLoraSyncWord w)⟩ else none)
+  | ["bufbase", tx, rx] => do
+    let tx ← tx.toNat?
+    let rx ← rx.toNat?
+    some ⟨id, unitP (setTxRxBufferBaseAddress tx rx)⟩
+  | ["payload", h] => (bytesOfHex? h).map (fun p => ⟨id, unitP (setPayload p)⟩)
+  | ["txpower", dbm, _, prep] => do
+    let dbm ← parseInt? dbm
+    let prep ← parseBool? prep
+    some ⟨id, unitP (setTxPowerAndRampTime cfg dbm prep)⟩
+  | ["irqparams", mode] =>
+    if mode = "none" then some ⟨id, unitP (setIrqParams none)⟩
+    else (modeOf? mode).map (fun m => ⟨id, unitP (setIrqParams (some m))⟩)
+  | ["dotx"] => some ⟨id, unitP doTx⟩
+  | ["dorx", mode] => (rxModeOf? mode).map (fun m => ⟨id, unitP (doRx cfg m)⟩)
+  | ["docad", _] => some ⟨id, unitP (doCad cfg)⟩
+  | ["calimg", hz] => hz.toNat?.map (fun f => ⟨id, unitP (calibrateImage f)⟩)
+  | ["wake", mode] => (modeOf? mode).map (fun m => ⟨id, unitP (ensureReady m)⟩)
+  | ["clearirq"] => some ⟨id, unitP clearIrqStatus⟩
+  | ["txcw"] => some ⟨id, unitP (setTxContinuousWaveMode cfg)⟩
+  | ["initlora", w] => w.toNat?.bind (fun w => if w < 65536 then some ⟨id, unitP (do let _ ← initLora cfg {} w; pure ())⟩ else none)
+  | ["irqevent", mode, flags, clear, cad] => do
+    let m ← modeOf? mode
+    let flags ← flags.toNat?
+    let clear ← parseBool? clear
+    let cad ← parseBool? cad
+    some ⟨fun c => { c with irqDefault := flags },
+          do let v ← processIrqEvent m (if cad then some false else none) clear; pure (S126.irqS v)⟩
+  | ["pktstatus", a, b, _] => do
+    let a ← a.toNat?
+    let b ← b.toNat?
+    some ⟨fun ch => { ch with regs := setAt (setAt ch.regs 0x19 (UInt8.ofNat b)) 0x1a (UInt8.ofNat a) },
+          do let _ ← getRxPacketStatus cfg; pure "ok"⟩
+  | ["rssi", a] => a.toNat?.map (fun a => ⟨fun ch => { ch with regs := setAt ch.regs 0x1b (UInt8.ofNat a) },
+      do let _ ← getRssi cfg; pure "ok"⟩)
+  | _ => none
+
+open Spec.Semtech.S127 in
+/-- the reference calls realising an operation on the SX127x -/
+def spec (cfg : Config) (ws : List String) : Option (Prog Unit) :=
+  match ws with
+  | ["sleep", _] => some Spec.Semtech.S127.setSleep
+  | ["standby"] => some Spec.Semtech.S127.setStandby
+  | ["channel", hz] => hz.toNat?.map setRfFreq
+  | ["syncword", w] => w.toNat?.map (fun w => Spec.Semtech.S127.setLoraSyncWord (UInt8.ofNat (((w / 256) &&& 0xF0) ||| ((w / 16) &&& 0x0F))))
+  | ["dorx", mode] => match rxModeOf? mode with
+    | some (.single n) => some (setLoraSyncTimeout n)
+    | _ => none
+  | ["modparams", sf, bw, cr, ldro, _] => do
+    let sf ← sf.toNat?
+    let bw ← bw.toNat?
+    let cr ← cr.toNat?
+    let ldro ← ldro.toNat?
+    modulation (cfg.chip == .sx1272) sf bw cr (UInt8.ofNat ldro)
+  | _ => none
+
+def effMask (ws : List String) (a : Nat) : UInt8 :=
+  match ws.head? with
+  | some "modparams" => if a = 0x1d ∨ a = 0x1e ∨ a = 0x37 then 0xff else if a = 0x26 then 0xfb else if a = 0x31 then 0x07 else 0
+  | some "dorx" => if a = 0x1e ∨ a = 0x1f then 0xff else 0
+  | _ => 0xff
+
+def effect (ws : List String) (c : Chip) : String :=
+  hexOfBytes ((List.range 127).map (fun i => c.regs (i + 1) &&& effMask ws (i + 1)))
+
+end S127
+
+/-- sync word: lora-phy writes both bytes without the reference's read — compare the writes -/
+def dropRegReads (t : List Bytes) : List Bytes := t.filter (fun b => b.take 3 != [0x1D, 0x07, 0x40])
+
+def handle (ws : List String) : String :=
+  match ws with
+  | kind :: chip :: seed :: pokes :: rest =>
+    match parseChip chip, seed.toNat?, parsePokes pokes with
+    | some c, some seed, some pokes =>
+      if is126 c.variant then
+        match S126.config c with
+        | none => "bad-op"
+        | some cfg =>
+          let chip0 := mkChip c seed pokes
+          let isSync := rest.head? == some "syncword" || rest.head? == some "initlora"
+          let canon (t : List Bytes) : String := showMosi (if isSync then dropRegReads t else t)
+          match kind with
+          | "op" =>
+            match S126.model cfg rest with
+            | none => "bad-op"
+            | some r =>
+              let m := canon (spiTrace r.prog (r.prep chip0))
+              let s := match S126.spec c cfg rest with
+                | some p => canon (spiTrace p (r.prep chip0))
+                | none => "-"
+              s!"{m}|{s}"
+          | "res" =>
+            match S126.model cfg rest with
+            | none => "bad-op"
+            | some r =>
+              let (o, w) := run r.prog { chip := r.prep chip0 }
+              s!"{showOut id o} {showLog w.log}|-"
+          | "ref" =>
+            match S126.spec c cfg rest with
+            | some p => s!"{showMosi (spiTrace p chip0)}|-"
+            | none => "bad-op"
+          | _ => "bad-op"
+      else
+        let cfg := S127.config c
+        let chip0 := mkChip c seed pokes
+        match kind with
+        | "op" =>
+          match S127.model cfg rest with
+          | none => "bad-op"
+          | some r => s!"{showMosi (spiTrace r.prog (r.prep chip0))}|-"
+        | "res" =>
+          match S127.model cfg rest with
+          | none => "bad-op"
+          | some r =>
+            let (o, w) := run r.prog { chip := r.prep chip0 }
+            s!"{showOut id o} {showLog w.log}|-"
+        | "eff" =>
+          match S127.model cfg rest with
+          | none => "bad-op"
+          | some r =>
+            let m := S127.effect rest (trace r.prog (r.prep chip0)).2.1
+            let s := match S127.spec cfg rest with
+              | some p => S127.effect rest (trace p (r.prep chip0)).2.1
+              | none => "-"
+            s!"{m}|{s}"
+        | "efr" =>
+          match S127.spec cfg rest with
+          | some p => s!"{S127.effect rest (trace p chip0).2.1}|-"
+          | none => "bad-op"
+        | _ => "bad-op"
+    | _, _, _ => "bad-op"
+  | _ => "bad-op"
 
 end Driver.C13
